@@ -341,15 +341,22 @@ func genC12Case(t *rapid.T) *C12Case {
 		call  *Call
 		regen func() (desc.V, bool)
 		fresh func() *Call // rule-family bases: every use draws new arguments and a new value for the same rule
+		then  *Call        // a call that directly follows every use of this base
 	}
 	var bases []base
 	nb := rapid.IntRange(1, 4).Draw(t, "nBases")
 	for i := 0; i < nb; i++ {
-		switch rapid.IntRange(0, 7).Draw(t, "baseKind") {
+		switch rapid.IntRange(0, 8).Draw(t, "baseKind") {
 		case 7:
 			// an exported helper (they draw from the same buffer pool as the validators), incl. the error path of the JSON dumper
 			h := &HelperCall{Name: rapid.SampledFrom([]string{"dump", "dumpjson", "dumpjson-bad", "dumpjson-bad", "explain", "genkv", "split", "timefmt", "strescape"}).Draw(t, "helper"), Arg: genString(t, "harg", true)}
 			bases = append(bases, base{call: &Call{H: h}, regen: func() (desc.V, bool) { return desc.V{}, false }})
+		case 8:
+			// the error path of the JSON dumper (a value encoding/json cannot encode), directly followed by
+			// a struct call with either / botheq groups (they build their clauses in pooled buffers too)
+			gc := genC17Struct(t)
+			gc.pickEntry(rapid.IntRange(0, 7).Draw(t, "gentry"))
+			bases = append(bases, base{call: &Call{H: &HelperCall{Name: "dumpjson-bad", Arg: genString(t, "harg", true)}}, regen: func() (desc.V, bool) { return desc.V{}, false }, then: &Call{S: gc}})
 		case 5, 6:
 			// one rule of the catalogue used several times with different arguments
 			// (separators, option lists, patterns, bounds) and values: state kept inside a
@@ -408,6 +415,9 @@ func genC12Case(t *rapid.T) *C12Case {
 			c.Calls = append(c.Calls, b.call)
 		} else {
 			c.Calls = append(c.Calls, c12Variant(t, b.call, b.regen))
+		}
+		if b.then != nil {
+			c.Calls = append(c.Calls, b.then)
 		}
 	}
 	c.Perm = rapid.Permutation(seq(len(c.Calls))).Draw(t, "perm")
